@@ -83,12 +83,16 @@ impl CollisionTask<'_> {
             // if similarly simplified            
             let am_aaabb = sm_shape.local_aabb().loosened(r_min);
             let sm_abb_mesh = build_trimesh_from_aabb(am_aaabb);
+            // The other object is more than r_min away only if it neither crosses the surface
+            // of the enlarged box nor lies inside it.
+            let bg_to_sm = sm_transform.inverse() * bg_transform;
             if !parry3d::query::intersection_test(
                 sm_transform,
                 &sm_abb_mesh,
                 bg_transform,
                 bg_shape,
-            ).expect(SUPPORTED) {
+            ).expect(SUPPORTED) && !bg_shape.vertices().iter().any(
+                |v| am_aaabb.contains_local_point(&bg_to_sm.transform_point(v))) {
                 false
             } else {
                 parry3d::query::distance(
